@@ -388,6 +388,9 @@ def checksum_update_guard(ck, P, R="GUARD/checksum-update"):
 def run(ck):
     P = prog("K1")
     ck.configs.add("K1")
+    # round 11: the Adler-32 that inflate compares with the trailer is computed by the kernels - their deferred modulo stays within NMAX
+    from . import c09 as _c09s
+    ck.floor("ATOM/adler-stride:K1", _c09s.adler_kernels(ck, P, "K1"), 2)
     from .. import guards as _gct
     _gct.c_truthiness(ck, P)
     fn, regs = mode_graph(ck, P)
